@@ -323,6 +323,21 @@ func (w *World) tryMempool(t *rapid.T) bool {
 	h := tx.TxHash()
 	w.everSeen[h] = tx
 	w.logf("mempool %s %s -> %v", kind, h.String()[:10], err)
+	if err != nil && kind == "chain" {
+		// the wallet accepts an unconfirmed transaction only if it can resolve every input on the chain or
+		// in its own pending store; after a wallet removal a parent that mattered only to the removed
+		// wallet is legitimately gone from that store
+		for _, in := range tx.TxIn {
+			ph := in.PreviousOutPoint.Hash
+			if _, isPending := w.pending[ph]; isPending {
+				if _, perr := w.env.W.VerifUnminedTx(&ph); perr != nil {
+					w.logf("  (parent %s is not in the wallet's pending store: refusal accepted)", ph.String()[:10])
+					delete(w.pending, ph)
+					return true
+				}
+			}
+		}
+	}
 	if err != nil && kind != "duplicate" {
 		// (a re-delivered pending transaction may be answered with an error as long as nothing changes,
 		// which the audits check)
@@ -372,7 +387,7 @@ func (w *World) auditPending(t *rapid.T) {
 		copy(h[:], k)
 		want, ok := w.pending[h]
 		if !ok {
-			t.Fatalf("pending store holds %s which is not an unconfirmed relevant transaction any more (confirmed, conflicted or never accepted)\n  %s", h.String()[:10], w.journalTail(25))
+			t.Fatalf("pending store holds %s which is not an unconfirmed relevant transaction any more (confirmed, conflicted or never accepted)\n  %s", h.String()[:10], w.journalTail(400))
 		}
 		if len(v) < 8 {
 			t.Fatalf("pending entry %s: short value (%d bytes)", h.String()[:10], len(v))
@@ -390,7 +405,31 @@ func (w *World) auditPending(t *rapid.T) {
 	}
 	for _, h := range w.pendingOrder() {
 		if _, ok := store[string(h[:])]; !ok {
-			t.Fatalf("transaction %s is known, relevant and unconfirmed but missing from the pending store\n  %s", h.String()[:10], w.journalTail(25))
+			tx := w.pending[h]
+			var sb strings.Builder
+			for i, in := range tx.TxIn {
+				own := "-"
+				if s := w.prevScript(in.PreviousOutPoint); s != nil {
+					_, hh, _, _ := classify(s)
+					for wi, m := range w.wallets {
+						if m.owns[hh] {
+							own = fmt.Sprintf("wallet %d", wi)
+						}
+					}
+				}
+				fmt.Fprintf(&sb, "    in %d: %s:%d owner %s\n", i, in.PreviousOutPoint.Hash.String()[:10], in.PreviousOutPoint.Index, own)
+			}
+			for i, o := range tx.TxOut {
+				own := "-"
+				_, hh, _, _ := classify(o.PkScript)
+				for wi, m := range w.wallets {
+					if m.owns[hh] {
+						own = fmt.Sprintf("wallet %d", wi)
+					}
+				}
+				fmt.Fprintf(&sb, "    out %d: %d owner %s\n", i, o.Value, own)
+			}
+			t.Fatalf("transaction %s is known, relevant and unconfirmed but missing from the pending store\n%s  %s", h.String()[:10], sb.String(), w.journalTail(25))
 		}
 	}
 	// (2) spent_by_unmined flag of every wallet coin + residue in pending-input / pending-credit stores
